@@ -40,7 +40,7 @@ def selftest():
 
 def gen_grammar(rnd):
     if rnd.random() > 0.35:
-        name = pick(rnd, ["lang", "blk", "csv", "xml", "rec", "int", "rec", "lang"])  # not "eps": <l> =>+ <l>, outside the parser's domain
+        name = pick(rnd, ["lang", "blk", "csv", "xml", "rec", "int", "rec", "lang", "pad"])  # not "eps": <l> =>+ <l>, outside the parser's domain
         return name, gen.ZOO[name]
     g = gen.acyclic_grammar(rnd, max_nts=5, alphabet=ALPHA)
     if chance(rnd, 0.5):
@@ -319,6 +319,9 @@ def judge(case):
                 root_cause = ":universal_numq_count"
             elif universal_numq(f):
                 root_cause = ":universal_numq"
+            elif start and any(x[0] == "exists" and x[1] == start for x in fml.walk(f)):
+                # open finding: an existential quantifier over the requested start symbol itself
+                root_cause = ":exists_over_requested_start_symbol"
             elif _ambiguous(cg, root, s) and any(x[0] in ("forall", "exists") for x in fml.walk(f)):
                 # open finding: the solver parses the Z3 value found for a partially expanded node from scratch; for a
                 # string with several derivations the new subtree can have another structure than the one the
